@@ -126,16 +126,18 @@ Definition show_fn (nf : pstr * (ty * fbody)) : pstr :=
   join (S "|") (hex (fst nf) :: body_kind (snd (snd nf)) :: (S "F v1") ::
                 flat_map (summ []) (body_exprs (snd (snd nf)))).
 
-Definition show_gen (r : result (pstr * gstate)) : pstr :=
+Definition show_gen (ct : ctable) (r : result (pstr * gstate)) : pstr :=
   match r with
   | Err x => S "GENERR " ++ show_exn x
-  | Ok (f, g) => S "GEN " ++ hex f ++ (if coherent g then S " coh" else S " incoh") ++ S "#" ++
+  | Ok (f, g) => S "GEN " ++ hex f ++ (if coherent g then S " coh" else S " incoh") ++
+                 (if region_ok ct g then S " reg" else S " noreg") ++
+                 (if g_alias g then S " alias" else S " noalias") ++ S "#" ++
                  join (S "#") (map show_fn (g_fns g))
   end.
 
 (* ---- entry points used by the harness --------------------------------------------- *)
 Definition case_gen (ct : ctable) (c : cid) : pstr :=
-  show_gen (gen_main ct (Datatypes.S (List.length ct)) c).
+  show_gen ct (gen_main ct (Datatypes.S (List.length ct)) c).
 
 (* generated code, specification and locator on one document *)
 Definition case_load (tbl : list oentry) (ct : ctable) (n : nat) (c : cid) (o : pv) : pstr :=
